@@ -157,6 +157,7 @@ def run(chk, repo, tier):
     run_x6_x7(chk, repo)
     run_x8(chk, repo)
     run_x9(chk, repo)
+    run_x11(chk, repo)
 
 
 # names that are fixed on purpose: later transformations look these statements up by name (read and confirmed)
@@ -297,6 +298,44 @@ def run_x5(chk, repo):
                                       'the transformation of ETA_CL')
     if n == 0:
         raise AnalysisError('X5: construction of the transformed eta symbols not found')
+    # X10: the numbering continues after the symbols the model already has only if the model is searched for the SAME stem
+    # (same case conversion) as the one the new symbols are built from
+    X10 = chk.rule('X10', '_create_new_etas: the stem searched among the existing symbols is spelled like the stem of the symbols '
+                          'it creates', floor=1)
+
+    def stems(js):
+        return [unparse(v.value) for v in js.values if isinstance(v, ast.FormattedValue)][:1]
+    created = set()
+    for a0 in ast.walk(f.node):
+        if isinstance(a0, ast.Assign) and isinstance(a0.targets[0], ast.Subscript) and isinstance(a0.value, ast.Call) \
+                and (dotted(a0.value.func) or '').endswith('Symbol') and a0.value.args \
+                and isinstance(a0.value.args[0], ast.JoinedStr):
+            created |= set(stems(a0.value.args[0]))
+    searched = []
+    for c in [c for c in ast.walk(f.node) if isinstance(c, ast.Call)]:
+        d = dotted(c.func) or ''
+        if d.startswith('re.') and c.args and isinstance(c.args[0], ast.JoinedStr):
+            searched += [(c, s_) for s_ in stems(c.args[0])]
+        elif d.split('.')[-1] == 'create_symbol' and len(c.args) >= 2:
+            a1 = c.args[1]
+            searched += [(c, s_) for s_ in (stems(a1) if isinstance(a1, ast.JoinedStr) else [unparse(a1)])]
+    # a local that only holds the stem (`stem = eta_new.upper()`) counts as its value
+    loc = {a_.targets[0].id: unparse(a_.value) for a_ in ast.walk(f.node) if isinstance(a_, ast.Assign)
+           and len(a_.targets) == 1 and isinstance(a_.targets[0], ast.Name) and isinstance(a_.value, (ast.Call, ast.Attribute))
+           and 'eta' in unparse(a_.value)}
+    created = {loc.get(x, x) for x in created}
+    if not created or not searched:
+        raise AnalysisError(f'X10: created stems {sorted(created)} / searched stems {len(searched)} not recognised')
+    for c, st in searched:
+        st = loc.get(st, st)
+        ok = st in created
+        chk.instance(X10, f'_create_new_etas: searches for `{st}`, creates {sorted(created)}: {ok}')
+        if not ok:
+            chk.violation(X10, pm.rel, f.name, unparse(c)[:80],
+                          f'the model is searched for symbols named `{st}`<n> but the new symbols are named {sorted(created)}<n>: '
+                          f'nothing is ever found and the numbering restarts at 1', line=c.lineno,
+                          witness='transform_etas_boxcox(model, ["ETA_1"]) then (.., ["ETA_2"]): ETAB1 is defined twice, the '
+                                  'second parameter follows the first eta')
 
 
 def run_x6_x7(chk, repo):
@@ -476,3 +515,53 @@ def run_x9(chk, repo):
                           witness='Y = F + F**power*EPS_1 + EPS_2 (set_power_on_ruv on one epsilon), then '
                                   'set_combined_error_model: Y is left as it is')
             break
+
+
+def run_x11(chk, repo):
+    """X11: add_covariate_effect may merge the new effect statement with the parameter's previous effect statement. The merged
+    statement must still be  <previous right-hand side> <new operation> <new effect>: the previous right-hand side enters as ONE
+    operand (substituted for the parameter in the new statement). Taking it apart into its arguments and folding everything
+    with the new operation replaces the operation of the earlier effects"""
+    from sa import reach
+    from sa.cfg import CFG
+    X11 = chk.rule('X11', 'add_covariate_effect: the merged effect statement contains the previous right-hand side as a whole '
+                          '(not its .args re-combined with the new operation)', floor=1)
+    cm = repo.module('pharmpy.modeling.covariate_effect')
+    f = cm.functions.get('add_covariate_effect')
+    if f is None:
+        raise AnalysisError('X11: add_covariate_effect not found')
+    cfg = CFG(f.node)
+    n = 0
+    for nd in cfg.nodes.values():
+        if nd.ast is None or nd.kind != 'stmt':
+            continue
+        # the statement that replaces the effect statement just appended: statements[-1] = Assignment.create(sym, expr)
+        a = nd.ast
+        if not (isinstance(a, ast.Assign) and isinstance(a.targets[0], ast.Subscript) and isinstance(a.value, ast.Call)
+                and (dotted(a.value.func) or '').startswith('Assignment') and len(a.value.args) == 2):
+            continue
+        try:
+            e = reach.expand_expr(cfg, nd.id, a.value.args[1], depth=3)
+        except TypeError:
+            e = reach.expand_expr(cfg, nd.id, a.value.args[1])
+        n += 1
+        whole, parts = [], []
+        for x in ast.walk(e):
+            if isinstance(x, ast.Attribute) and x.attr == 'args' and isinstance(x.value, ast.Attribute) \
+                    and x.value.attr == 'expression':
+                parts.append(x)
+        part_bases = {id(x.value) for x in parts}
+        for x in ast.walk(e):
+            if isinstance(x, ast.Attribute) and x.attr == 'expression' and id(x) not in part_bases:
+                whole.append(unparse(x))
+        prev_whole = [w for w in whole if 'effect_statement' not in w and 'template' not in w]
+        ok = bool(prev_whole) and not parts
+        chk.instance(X11, f'merged statement `{unparse(e)[:70]}`: previous right-hand side kept whole: {ok}')
+        if not ok:
+            chk.violation(X11, cm.rel, f.qualname, unparse(a)[:100],
+                          'the previous effects are taken apart (.expression.args) and re-combined with the operation of the new '
+                          'effect: an earlier effect added with the other operation changes its meaning', line=a.lineno,
+                          witness="add_covariate_effect(m, 'CL', 'WGT', 'exp', '*') then (.., 'AGE', 'lin', '+'): CL = CL + CLWGT + "
+                                  "CLAGE instead of CL*CLWGT + CLAGE")
+    if n == 0:
+        raise AnalysisError('X11: the merged effect statement was not found in add_covariate_effect')
